@@ -9743,7 +9743,25 @@ def _write_node(node, xml_tree=None, viewport_transform=None):
             xml_tree.set(SVG_ATTR_VIEWBOX, str(node.viewbox))
         vt = None
         try:
-            vt = node.viewbox_transform
+            try:
+                vt = node.viewbox_transform
+            except ValueError:
+                # A position or size still given in units (width="2in"): the reader resolves it at the
+                # default ppi before it builds the viewport transform, so the same is done here.
+                def resolved(v):
+                    return v.value(ppi=DEFAULT_PPI) if isinstance(v, Length) else v
+
+                vt = Viewbox.viewbox_transform(
+                    resolved(node.x),
+                    resolved(node.y),
+                    resolved(node.width),
+                    resolved(node.height),
+                    node.viewbox.x,
+                    node.viewbox.y,
+                    node.viewbox.width,
+                    node.viewbox.height,
+                    node.viewbox.preserve_aspect_ratio,
+                )
             if not vt and nested and (node.x or node.y):
                 # A nested svg without a viewBox still places its content at x, y.
                 vt = "translate(%s, %s)" % (Length.str(node.x), Length.str(node.y))
@@ -9881,6 +9899,10 @@ def _write_node(node, xml_tree=None, viewport_transform=None):
     # Write Transform
     if hasattr(node, "transform") and not isinstance(node, (Group, Use)):
         t = node.transform
+        if isinstance(t.e, Length) or isinstance(t.f, Length):
+            # A translation still given in units: a matrix() holds plain numbers, which the reader takes as pixels.
+            t = Matrix(t)
+            t.render(ppi=DEFAULT_PPI)
         if viewport_transform:
             t = t * viewport_transform
         if not t.is_identity():
